@@ -28,21 +28,21 @@ namespace Hive.SyncMutex.Dag
 
 inductive Mode
   | r | w
-  deriving DecidableEq, Repr
+  deriving DecidableEq, Repr, Hashable
 
 inductive DOp
   | lock (x : Nat)
   | unlock (x : Nat)
   | rlock (xs : List Nat)
   | runlock (xs : List Nat)
-  deriving DecidableEq, Repr
+  deriving DecidableEq, Repr, Hashable
 
 /-- State of one entity: `consumerCounter[id]` and the state of `mutexes[id]` (absent = all zero). -/
 structure Ent where
   cnt : Nat
   readers : Nat
   writer : Bool
-  deriving DecidableEq, Repr
+  deriving DecidableEq, Repr, Hashable
 
 def Ent.zero : Ent := ⟨0, 0, false⟩
 
@@ -55,13 +55,13 @@ inductive DPc
   | acqW (x : Nat)          -- registered on x, inside `mutex.Lock()`
   | acqR (xs : List Nat)    -- registered on all of xs, read-locking them in this order
   | dead                    -- panicked
-  deriving DecidableEq, Repr
+  deriving DecidableEq, Repr, Hashable
 
 structure DTh where
   pc : DPc
   held : List (Nat × Mode)
   script : List DOp
-  deriving DecidableEq, Repr
+  deriving DecidableEq, Repr, Hashable
 
 def DTh.new (script : List DOp) : DTh := ⟨.idle, [], script⟩
 
